@@ -60,7 +60,7 @@ def nextFree (occ : Nat → Bool) : Nat → Nat → Nat
 def connectFirst (s : Storage) (n : Nat) : List DriveCfg → Storage
   | [] => s
   | d :: ds =>
-    let k := nextFree s.occupied (s.drives.length + 1) n
+    let k := nextFree s.occupied (s.maxDrive + 2) n
     connectFirst { drives := s.drives ++ [(k, d)] } k ds
 
 /-- `StorageConfiguration::connect_drives` -/
